@@ -189,3 +189,27 @@ def is_logging_stmt(stmt):
     if isinstance(stmt, ast.Expr) and isinstance(stmt.value, ast.Constant):
         return True
     return False
+
+
+def field_copy_verdict(cfg, target, want_src, other_srcs):
+    """Verdict for "field `target` is assigned from `want_src` on every normal path".
+    Returns (verdict, detail): 'HOLDS' | 'VIOLATED' | 'UNDECIDED'."""
+    stores = [n for n in cfg.nodes.values() if n.kind == "stmt" and isinstance(n.ast, ast.Assign)
+              and any(ast.unparse(t) == target for t in n.ast.targets)]
+    if not stores:
+        return "VIOLATED", f"`{target}` is never assigned"
+    if not must_pass(cfg, lambda n: n in stores):
+        w = cfg.describe_path(witness_avoiding(cfg, lambda n: n in stores))
+        return "VIOLATED", f"`{target}` is not assigned on every path to the return (path {w})"
+    vals = {ast.unparse(n.ast.value) for n in stores}
+    if vals == {want_src}:
+        return "HOLDS", f"`{target}` <- `{want_src}` on every path"
+    wrong = vals & set(other_srcs)
+    if wrong:
+        return "VIOLATED", f"`{target}` is assigned from {sorted(wrong)} instead of `{want_src}`"
+    # last store wins: if every path's last store is the wanted one it still holds
+    good = [n for n in stores if ast.unparse(n.ast.value) == want_src]
+    bad = [n for n in stores if ast.unparse(n.ast.value) != want_src]
+    if good and all(must_pass(cfg, lambda n: n in good, start=t) for b in bad for t, l in cfg.succ[b.id] if l not in ("exc", "excp")):
+        return "HOLDS", f"`{target}` <- `{want_src}` is the last store on every path"
+    return "UNDECIDED", f"`{target}` is assigned from {sorted(vals)}: not recognised as a copy of `{want_src}`"
